@@ -2,6 +2,7 @@
 use crate::driver::{CheckCtx, Found, PropMeta, Violation};
 
 pub mod c20;
+pub mod histprops;
 
 pub struct PropEntry {
     pub meta: &'static PropMeta,
@@ -12,5 +13,16 @@ pub struct PropEntry {
 pub fn registry() -> Vec<PropEntry> {
     vec![
         PropEntry { meta: &c20::META, check: c20::check, replay: c20::replay },
+        PropEntry { meta: &histprops::C01_META, check: |c| histprops::hist_check(c, &histprops::C01), replay: |_, _, v| histprops::hist_replay(&histprops::C01, v) },
+        PropEntry { meta: &histprops::C02_META, check: |c| histprops::hist_check(c, &histprops::C02), replay: |_, _, v| histprops::hist_replay(&histprops::C02, v) },
+        PropEntry { meta: &histprops::C05_META, check: |c| histprops::hist_check(c, &histprops::C05), replay: |_, _, v| histprops::hist_replay(&histprops::C05, v) },
+        PropEntry { meta: &histprops::C06_META, check: |c| histprops::hist_check(c, &histprops::C06), replay: |_, _, v| histprops::hist_replay(&histprops::C06, v) },
+        PropEntry { meta: &histprops::C07_META, check: |c| histprops::hist_check(c, &histprops::C07), replay: |_, _, v| histprops::hist_replay(&histprops::C07, v) },
+        PropEntry { meta: &histprops::C08_META, check: |c| histprops::hist_check(c, &histprops::C08), replay: |_, _, v| histprops::hist_replay(&histprops::C08, v) },
+        PropEntry { meta: &histprops::C09_META, check: |c| histprops::hist_check(c, &histprops::C09), replay: |_, _, v| histprops::hist_replay(&histprops::C09, v) },
+        PropEntry { meta: &histprops::C13_META, check: |c| histprops::hist_check(c, &histprops::C13), replay: |_, _, v| histprops::hist_replay(&histprops::C13, v) },
+        PropEntry { meta: &histprops::C14_META, check: |c| histprops::hist_check(c, &histprops::C14), replay: |_, _, v| histprops::hist_replay(&histprops::C14, v) },
+        PropEntry { meta: &histprops::C15_META, check: |c| histprops::hist_check(c, &histprops::C15), replay: |_, _, v| histprops::hist_replay(&histprops::C15, v) },
+        PropEntry { meta: &histprops::C16_META, check: |c| histprops::hist_check(c, &histprops::C16), replay: |_, _, v| histprops::hist_replay(&histprops::C16, v) },
     ]
 }
